@@ -59,7 +59,7 @@ impl Kc {
     }
 }
 
-pub const NK: usize = 14;
+pub const NK: usize = 16;
 /// The contended keys. First bytes spread over metadata shards 0 (`p`),
 /// 5 (`e`, `u`), 14 (`n`), 4 (`t`), 15 (`_`); `_cache:` keys live in the cache
 /// ring. The last two are plain keys that share a proper prefix of a class
@@ -80,6 +80,10 @@ pub const KEYS: [(&str, Kc); NK] = [
     ("_cache:d", Kc::Cache),
     ("_cachestats", Kc::Plain),
     ("embassy", Kc::Plain),
+    // two cache keys longer than 64 bytes, equally long, equal in their first 64 bytes
+    // (cache keys embed whole query texts; an index keyed by part of the key confuses them)
+    ("_cache:q:SELECT name, total FROM orders_by_customer_and_region WHERE region = 'north' LIMIT 10#1", Kc::Cache),
+    ("_cache:q:SELECT name, total FROM orders_by_customer_and_region WHERE region = 'north' LIMIT 10#2", Kc::Cache),
 ];
 
 /// scan prefixes: (prefix, stable name used in violation classes). Several
